@@ -102,6 +102,7 @@ def differential(chk, programs, configs_for, key_for=None, nontrivial=None, work
                 chk.notes.append("oracle %s on generated program %d (generator/oracle glue): %s" % (o[0], i, o[1][:200]))
             continue
         stats["oracle_ok"] += 1
+        stats["theorem_hypotheses_hold"] = stats.get("theorem_hypotheses_hold", 0) + (1 if len(o) > 3 and o[3] else 0)
         for f in p.features:
             stats["features"][f] = stats["features"].get(f, 0) + 1
         if any(o[1].values()):
